@@ -1,4 +1,4 @@
 INIT Init
 NEXT Next
-INVARIANT MemLaws ExprAgree DivTotal RewriteSanity PoisonLaws BlockRun Control
+INVARIANT MemLaws ExprAgree DivTotal WideAgree RewriteSanity PoisonLaws BlockRun Control
 CHECK_DEADLOCK FALSE
